@@ -26,15 +26,14 @@ Section SparseMul.
 
   (* ================= 1. s_from_vec on canonical input ================= *)
 
-  Lemma s_strip_all_nonzero : forall s : list (nat * K),
-    (forall t, In t s -> snd t <> zero) -> s_strip F s = s.
+  Lemma s_retain_all_nonzero : forall s : list (nat * K),
+    (forall t, In t s -> snd t <> zero) -> s_retain F s = s.
   Proof.
     induction s as [|t r IH]; intro Hnz; [reflexivity | ].
-    simpl. rewrite IH by (intros u Hu; apply Hnz; right; exact Hu).
-    destruct r as [|u r']; [ | reflexivity].
+    unfold s_retain in *. simpl.
     assert (Ht : is0 (snd t) = false).
     { apply (is0_false F eqb_ok). apply Hnz. left. reflexivity. }
-    rewrite Ht. reflexivity.
+    rewrite Ht. simpl. f_equal. apply IH. intros u Hu. apply Hnz. right. exact Hu.
   Qed.
 
   Lemma sorted_In_nonzero : forall s lo t, sorted_from F lo s -> In t s -> snd t <> zero.
@@ -44,9 +43,9 @@ Section SparseMul.
     destruct Hin as [<- | Hin]; [exact H2 | exact (IH _ _ H3 Hin)].
   Qed.
 
-  Lemma s_strip_sorted_id : forall s lo, sorted_from F lo s -> s_strip F s = s.
+  Lemma s_retain_sorted_id : forall s lo, sorted_from F lo s -> s_retain F s = s.
   Proof.
-    intros s lo Hs. apply s_strip_all_nonzero. intros t Hin. exact (sorted_In_nonzero _ _ _ Hs Hin).
+    intros s lo Hs. apply s_retain_all_nonzero. intros t Hin. exact (sorted_In_nonzero _ _ _ Hs Hin).
   Qed.
 
   Lemma s_sort_sorted_id : forall s lo, sorted_from F lo s -> s_sort s = s.
@@ -56,7 +55,7 @@ Section SparseMul.
     unfold s_sort in *. simpl. rewrite (IH _ H3).
     destruct r as [|u r']; [reflexivity | ].
     simpl in H3. destruct H3 as (H3 & _).
-    simpl. assert (E : Nat.ltb (fst t) (fst u) = true) by (apply Nat.ltb_lt; lia).
+    simpl. assert (E : Nat.leb (fst t) (fst u) = true) by (apply Nat.leb_le; lia).
     rewrite E. reflexivity.
   Qed.
 
@@ -75,7 +74,7 @@ Section SparseMul.
   Lemma s_from_vec_sorted_id : forall s lo, sorted_from F lo s -> s_from_vec F s = ROk s.
   Proof.
     intros s lo Hs. unfold s_from_vec.
-    rewrite (s_strip_sorted_id _ _ Hs), (s_sort_sorted_id _ _ Hs).
+    rewrite (s_retain_sorted_id _ _ Hs), (s_sort_sorted_id _ _ Hs).
     exact (s_from_vec_tail_ok _ _ Hs).
   Qed.
 
@@ -309,7 +308,7 @@ Section SparseMul.
   Proof.
     intros t u. induction r as [|w r IH]; simpl.
     - intuition.
-    - destruct (Nat.ltb (fst t) (fst w)); simpl; [intuition | ].
+    - destruct (Nat.leb (fst t) (fst w)); simpl; [intuition | ].
       rewrite IH. intuition.
   Qed.
 
@@ -326,9 +325,10 @@ Section SparseMul.
     intros t. induction r as [|w r IH]; intros lo lo' Hs Hd Hc Hl Ht.
     - simpl. auto.
     - simpl in Hs. destruct Hs as (H1 & H2 & H3). simpl.
-      destruct (Nat.ltb (fst t) (fst w)) eqn:E.
-      + apply Nat.ltb_lt in E. simpl. repeat split; auto; lia.
-      + apply Nat.ltb_ge in E. assert (Hne : fst w <> fst t) by (apply Hd; left; reflexivity).
+      assert (Hne : fst w <> fst t) by (apply Hd; left; reflexivity).
+      destruct (Nat.leb (fst t) (fst w)) eqn:E.
+      + apply Nat.leb_le in E. simpl. repeat split; auto; lia.
+      + apply Nat.leb_gt in E.
         simpl. split; [lia | ]. split; [exact H2 | ].
         apply (IH (S (fst w))); auto; try lia.
         intros u Hu. apply Hd. right. exact Hu.
@@ -339,7 +339,7 @@ Section SparseMul.
   Proof.
     intros [i c]. induction r as [|[j d] r IH]; intro x.
     - reflexivity.
-    - simpl. destruct (Nat.ltb i j); simpl; [reflexivity | ].
+    - simpl. destruct (Nat.leb i j); simpl; [reflexivity | ].
       simpl in IH. rewrite IH. ring.
   Qed.
 
@@ -362,19 +362,67 @@ Section SparseMul.
     - apply Hnz. left. reflexivity.
   Qed.
 
-  (* from_coefficients_vec on any term list with pairwise distinct degrees and non-zero
-     coefficients: no panic, canonical result, same function.
-     (Partial w.r.t. the general constructor: trailing zero coefficients are stripped by the
-     Rust code and interior zeros / duplicate degrees survive it -- those inputs are outside
-     this statement.) *)
+  Lemma s_retain_nonzero : forall (s : list (nat * K)) t, In t (s_retain F s) -> snd t <> zero.
+  Proof.
+    intros s t Hin. unfold s_retain in Hin. apply filter_In in Hin. destruct Hin as [_ H].
+    apply (is0_false F eqb_ok). destruct (is0 (snd t)); [discriminate | reflexivity].
+  Qed.
+
+  Lemma s_retain_NoDup : forall s : list (nat * K),
+    NoDup (map fst s) -> NoDup (map fst (s_retain F s)).
+  Proof.
+    induction s as [|t r IH]; intro Hnd; [exact Hnd | ].
+    simpl in Hnd. inversion Hnd as [|? ? Hnotin Hnd']; subst.
+    unfold s_retain in *. simpl. destruct (is0 (snd t)); simpl; [exact (IH Hnd') | ].
+    constructor; [ | exact (IH Hnd')].
+    intro Hin. apply Hnotin. apply in_map_iff in Hin. destruct Hin as (u & Hu & Hin).
+    apply filter_In in Hin. destruct Hin as [Hin _]. rewrite <- Hu. apply in_map. exact Hin.
+  Qed.
+
+  Lemma last_In_nonempty : forall (r : list (nat * K)) d, r <> [] -> In (last r d) r.
+  Proof.
+    induction r as [|t r IH]; intros d Hne; [congruence | ].
+    destruct r as [|u r']; [left; reflexivity | ].
+    right. change (last (t :: u :: r') d) with (last (u :: r') d). apply IH. discriminate.
+  Qed.
+
+  (* from_coefficients_vec never panics, on ANY raw term list (zero coefficients anywhere, repeated
+     degrees): the result holds exactly the non-zero raw terms and denotes the sum of the raw terms *)
+  Theorem s_from_vec_total : forall s : list (nat * K),
+    exists r, s_from_vec F s = ROk r /\ (forall t, In t r <-> (In t s /\ snd t <> zero)) /\
+              (forall x, seval r x = seval s x).
+  Proof.
+    intro s. exists (s_sort (s_retain F s)). split; [ | split].
+    - unfold s_from_vec. cbv zeta.
+      destruct (s_sort (s_retain F s)) as [|t r'] eqn:E; [reflexivity | ].
+      assert (Hin : In (last (t :: r') (O, zero)) (s_sort (s_retain F s)))
+        by (rewrite E; apply last_In_nonempty; discriminate).
+      apply (proj1 (s_sort_In _ _)) in Hin.
+      apply s_retain_nonzero in Hin. apply (is0_false F eqb_ok) in Hin. rewrite Hin. reflexivity.
+    - intro t. rewrite s_sort_In. unfold s_retain. rewrite filter_In. split.
+      + intros [A B]. split; [exact A | ]. apply (is0_false F eqb_ok).
+        destruct (is0 (snd t)); [discriminate | reflexivity].
+      + intros [A B]. split; [exact A | ]. apply (is0_false F eqb_ok) in B. rewrite B. reflexivity.
+    - intro x. rewrite s_sort_seval. unfold s_retain. apply filter_nz_seval.
+  Qed.
+
+  (* pairwise distinct degrees (zero coefficients allowed, anywhere in the list): no panic, canonical
+     result, same function.  (Repeated degrees survive the constructor as repeated entries: the result
+     is then not canonical -- s_from_vec_total is all that holds there.) *)
+  Theorem s_from_vec_spec : forall s : list (nat * K),
+    NoDup (map fst s) -> oks F (s_from_vec F s) (seval s).
+  Proof.
+    intros s Hnd.
+    pose proof (s_sort_sorted (s_retain F s) (s_retain_NoDup s Hnd) (s_retain_nonzero s)) as Hs.
+    exists (s_sort (s_retain F s)). unfold s_from_vec. cbv zeta.
+    split; [exact (s_from_vec_tail_ok _ _ Hs) | ]. split; [exact Hs | ].
+    intro x. rewrite s_sort_seval. unfold s_retain. apply filter_nz_seval.
+  Qed.
+
+  (* the statement of the first session (before F28 was repaired), now a corollary *)
   Theorem s_from_vec_spec_partial : forall s : list (nat * K),
     NoDup (map fst s) -> (forall t, In t s -> snd t <> zero) ->
     oks F (s_from_vec F s) (seval s).
-  Proof.
-    intros s Hnd Hnz. pose proof (s_sort_sorted s Hnd Hnz) as Hs.
-    exists (s_sort s). unfold s_from_vec. rewrite (s_strip_all_nonzero s Hnz).
-    split; [exact (s_from_vec_tail_ok _ _ Hs) | ]. split; [exact Hs | ].
-    intro x. apply s_sort_seval.
-  Qed.
+  Proof. intros s Hnd _. exact (s_from_vec_spec s Hnd). Qed.
 
 End SparseMul.
